@@ -451,6 +451,8 @@ func (c *c19Call) usesCause() bool {
 		return c.F != c19FClosed1 && c.F != c19FClosed2
 	case "connectopt", "retryconnectopt":
 		return true
+	case "keepalive":
+		return c.N != 0
 	}
 	return false
 }
@@ -481,6 +483,8 @@ func (c *c19Call) coq() string {
 		return "CkWillBadQoS"
 	case "serve":
 		return fmt.Sprintf("(CkServe %d)", c.N)
+	case "keepalive":
+		return fmt.Sprintf("(CkKeepAlive %d)", c.N)
 	}
 	panic("c19: unknown call kind " + c.Kind)
 }
@@ -876,6 +880,32 @@ func c19DoCall(c *c19Call, cause error) (error, bool) {
 			return errC19Stuck, false
 		}
 		return cc.cli.Err(), true
+	case "keepalive":
+		// 0: PINGRESP never comes and the per-ping timeout expires; 1: the parent context is
+		// completed while the ping waits (per-ping timeout far away); 2: the ping's Write fails
+		ctx := newC19Ctx(cause)
+		cc := c19NewConn(func(cc *c19Conn, n int, p c19Pkt) (bool, error) {
+			if p.Kind != "pingreq" {
+				return false, nil
+			}
+			switch c.N {
+			case 1:
+				ctx.cancel()
+			case 2:
+				return true, cause
+			}
+			return true, nil
+		})
+		if err := cc.connect(); err != nil {
+			return err, false
+		}
+		timeout := time.Hour
+		if c.N == 0 {
+			timeout = 3 * time.Millisecond
+		}
+		err, ok := c19Guard(func() error { return mqtt.KeepAlive(ctx, cc.cli, time.Millisecond, timeout) })
+		cc.cli.Close()
+		return err, ok
 	}
 	panic("c19: unknown call kind " + c.Kind)
 }
@@ -1016,6 +1046,7 @@ func c19CauselessCalls() []*c19Call {
 	for n := 0; n <= 4; n++ {
 		out = append(out, &c19Call{Kind: "serve", N: n})
 	}
+	out = append(out, &c19Call{Kind: "keepalive", N: 0})
 	return out
 }
 
@@ -1029,7 +1060,8 @@ func c19CauseCalls() []*c19Call {
 			}
 		}
 	}
-	out = append(out, &c19Call{Kind: "connectopt"}, &c19Call{Kind: "retryconnectopt"})
+	out = append(out, &c19Call{Kind: "connectopt"}, &c19Call{Kind: "retryconnectopt"},
+		&c19Call{Kind: "keepalive", N: 1}, &c19Call{Kind: "keepalive", N: 2})
 	for _, rt := range []bool{false, true} {
 		out = append(out, &c19Call{Kind: "retryping", F: c19FWrite1, RT: rt}, &c19Call{Kind: "retryping", F: c19FCtx1, RT: rt})
 	}
